@@ -220,6 +220,9 @@ def _run_build(cfg: TCfg, c: Ctx) -> Any:
     K = 3  # statements in A's describing function
     pause_at = c.choose(K + 1, "pause")  # before statement i (K = after the last one)
     op = ("call_dag", "call_xn_ignore", "call_xn_error", "build", "call_dag_default")[c.choose(5, "op")]
+    # how the other thread relates to the builder: independent / same thread name / started by the builder's describing
+    # function with a copy of its context (as asyncio.to_thread and the async-thread resource do)
+    relation = ("independent", "same-name", "inherits-context")[c.choose(3, "relation")]
     c.heavy()
     fns = {l: (lambda l: (lambda *a: SymVal(vapp("f_" + l, [lift(v) for v in a]))))(l) for l in ("a0", "a1", "a2", "e0", "e1", "b0", "b1", "solo")}
     for l, f in fns.items():
@@ -234,16 +237,24 @@ def _run_build(cfg: TCfg, c: Ctx) -> Any:
     e = dag(existing)
     paused, resume = threading.Event(), threading.Event()
 
+    def pause_point() -> None:
+        if relation == "inherits-context":
+            import contextvars
+
+            ctx = contextvars.copy_context()
+            tb_box.append(threading.Thread(target=ctx.run, args=(thread_b,), daemon=True, name="worker-b"))
+            tb_box[0].start()
+        paused.set()
+        resume.wait(20)
+
     def describe_a(x):  # type: ignore[no-untyped-def]
         vals = [x]
         for i in range(K):
             if i == pause_at and pausing[0]:
-                paused.set()
-                resume.wait(20)
+                pause_point()
             vals.append(xns["a%d" % i](vals[-1], i))
         if pause_at == K and pausing[0]:
-            paused.set()
-            resume.wait(20)
+            pause_point()
         return vals[-1]
 
     describe_a.__qualname__ = describe_a.__name__ = "pipe_a"
@@ -253,6 +264,7 @@ def _run_build(cfg: TCfg, c: Ctx) -> Any:
 
     describe_b.__qualname__ = describe_b.__name__ = "pipe_b"
     pausing = [False]
+    tb_box: List[threading.Thread] = []
     ref_a = _snapshot(dag(describe_a))
     ref_b = _snapshot(dag(describe_b))
     Y = c.val("y")
@@ -292,19 +304,22 @@ def _run_build(cfg: TCfg, c: Ctx) -> Any:
     def thread_b() -> None:
         out["b"] = outcome(do_op)
 
-    ta = threading.Thread(target=thread_a, daemon=True)
+    ta = threading.Thread(target=thread_a, daemon=True, name="worker")
     ta.start()
     if not paused.wait(20):
         raise E.HarnessError("builder thread did not reach its pause point")
-    tb = threading.Thread(target=thread_b, daemon=True)
-    tb.start()
+    if relation == "inherits-context":
+        tb = tb_box[0]
+    else:
+        tb = threading.Thread(target=thread_b, daemon=True, name="worker" if relation == "same-name" else "worker-b")
+        tb.start()
     status = _wait_blocked_or_done(tb, ("threadsafe_make_dag",), lambda: "b" in out)
     resume.set()
     ta.join(20)
     tb.join(20)
     if ta.is_alive() or tb.is_alive():
         raise E.HarnessError("threads did not finish")
-    data = {"pause_at": pause_at, "op": op, "b_status_while_a_paused": status}
+    data = {"pause_at": pause_at, "op": op, "relation": relation, "b_status_while_a_paused": status}
     if op == "build":
         c.check(status == "blocked", "a second build ran to completion while another thread was still describing its DAG (builds must serialise)", prop="C16", data=data)
     else:
@@ -320,7 +335,7 @@ def _run_build(cfg: TCfg, c: Ctx) -> Any:
         c.check(gb[0] == "value" and gb[1] == ref_b, "the concurrently built second DAG differs from the sequentially built one", prop="C16", data=data)
     # the existing DAG still works and is unchanged
     c.check(veq(e(Y, 3), xns["e1"].exec_function(xns["e0"].exec_function(Y, 3), 5)), "existing DAG changed behaviour after a concurrent build", prop="C16", data=data)
-    c.cover("states", hash((pause_at, op)))
+    c.cover("states", hash((pause_at, op, relation)))
     c.cover("w_" + op)
     return data
 
